@@ -109,7 +109,7 @@ CLAIMED["C06"] = dict(
 
 CLAIMED["C11"] = dict(
     category="model_checking",
-    text="Bounded. Request side: the MapAccess steps of the real Cookie deserializer are driven over jar templates with symbolic contents: `N=VV; M=W`, `N=\"VV\"; M=W` and `N=VV` "
+    text="Bounded. Request side: the MapAccess steps of the real Cookie deserializer are driven over jar templates with symbolic contents: `N=VV` (quick tier) and `N=VV; M=W`, `N=\"VV\"; M=W` (thorough tier: 11-12 min each) "
          "(names any RFC 6265 token byte, values any cookie-octet except `%`, `=` included): every name and value decodes to what was sent, in order, double quotes stripped, nothing after the last "
          "cookie; and `n=%XY` for all 256 escapes decodes to the byte when it is ASCII and is an error otherwise. Cookie name/value validators for all short inputs are under contract in C08. Response side: SetCookieBuilder::build followed by SetCookie::from_raw on 7 enumerated CONCRETE values (plain, a literal percent escape `50%2Foff`, space and semicolon, double quotes, non-ASCII, base64 padding, empty) with Path, HttpOnly and SameSite=Lax: the emitted text is a single line `name=value *(\"; \" directive)` whose value consists of RFC 6265 cookie-octets only, and it parses back to the value given to the builder and exactly the directives given.",
     design_ref="DESIGN.md §4 C11, §8.2",
